@@ -68,7 +68,7 @@ def gen_cases(tier, seed):
         if rw.is_empty(case["cls"]):
             continue
         if rng.random() < 0.5:
-            case["pack"]["factory"] = rng.choice((0, 1, 2, 3))
+            case["pack"]["factory"] = rng.choice((0, 1, 2, 3, 4))
         case["schedule"] = {"mode": rng.choice(("drain", "drain", "sliced", "levels")),
                             "costs": [rng.choice((0.001, 3.5))], "rng_seed": rng.randrange(10 ** 6),
                             "tree_k": 0, "perc": 1, "smallest": False}
